@@ -176,3 +176,13 @@ Print Assumptions C09_error_terms_are_second_order.
 Theorem C09_sum_updates_are_the_source's : gen_rolling_sum_updates = rolling_sum_updates.
 Proof. exact tie_rolling_sum_updates. Qed.
 Print Assumptions C09_sum_updates_are_the_source's.
+
+(* Tie B (pins): the functions this property's models transcribe read, statement by statement, as they did when the models
+   were written against them; Gen/SourcesGen.v is regenerated from /repo on every run (translator/pins.py). *)
+From GL Require Import Gen.SourcesGen Model.Sources Proofs.PinC09.
+Theorem C09_modelled_functions_are_the_source's :
+  gen_src_rolling_max_or_min_1d = src_rolling_max_or_min_1d /\
+  gen_src_min_or_max_and_position = src_min_or_max_and_position /\
+  gen_src_rolling_shift_or_diff_1d = src_rolling_shift_or_diff_1d.
+Proof. exact (conj pin_rolling_max_or_min_1d (conj pin_min_or_max_and_position pin_rolling_shift_or_diff_1d)). Qed.
+Print Assumptions C09_modelled_functions_are_the_source's.
